@@ -10,7 +10,7 @@ fuzz_target!(|data: &[u8]| {
     vh::fuzz_support::init();
     let key = SUB.get_or_init(|| std::env::var("VERIF_FUZZ_SUB").unwrap_or_default());
     if let Some((f, _)) = vh::ptfuzz::judge(key, data) {
-        let property = vh::ptfuzz::sub_of(key).map_or("?", |(p, _)| p);
+        let property = vh::ptfuzz::sub_of(key).map_or("?", |(p, _, _)| p);
         vh::fuzz_support::report(property, &f);
     }
 });
